@@ -4,68 +4,184 @@ package registration
 
 import (
 	"context"
+	"time"
 
 	"github.com/hashicorp/nodeenrollment"
 	"github.com/hashicorp/nodeenrollment/types"
 	"github.com/hashicorp/nodeenrollment/zzverif/vf"
+	"github.com/hashicorp/nodeenrollment/zzverif/vfs"
 	"google.golang.org/protobuf/proto"
 	"google.golang.org/protobuf/types/known/timestamppb"
 )
 
-var VfHarnesses = map[string]func(){"VerifC03Validate": VerifC03Validate}
+var VfHarnesses = map[string]func(){"VerifC03Validate": VerifC03Validate, "VerifC03EntryPoints": VerifC03EntryPoints, "VerifC03NodeSide": VerifC03NodeSide}
 
-type vfStore struct{ writes int }
-
-func (s *vfStore) Store(ctx context.Context, m nodeenrollment.MessageWithId) error  { s.writes++; return nil }
-func (s *vfStore) Remove(ctx context.Context, m nodeenrollment.MessageWithId) error { s.writes++; return nil }
-func (s *vfStore) List(ctx context.Context, m proto.Message) ([]string, error)     { return nil, nil }
-func (s *vfStore) Load(ctx context.Context, m nodeenrollment.MessageWithId) error {
-	return nodeenrollment.ErrNotFound
+// vfCountingStore counts every storage operation: C03 demands rejection before any authorization decision.
+type vfCountingStore struct {
+	vfs.Storage
+	ops int
 }
 
-// C03: validation accepts only bundles signed by the key they name, with the required
-// fields, inside the skew-widened validity window.
+func (s *vfCountingStore) Store(ctx context.Context, m nodeenrollment.MessageWithId) error {
+	s.ops++
+	return s.Storage.Store(ctx, m)
+}
+func (s *vfCountingStore) Load(ctx context.Context, m nodeenrollment.MessageWithId) error {
+	s.ops++
+	return s.Storage.Load(ctx, m)
+}
+func (s *vfCountingStore) Remove(ctx context.Context, m nodeenrollment.MessageWithId) error {
+	s.ops++
+	return s.Storage.Remove(ctx, m)
+}
+func (s *vfCountingStore) List(ctx context.Context, m proto.Message) ([]string, error) {
+	s.ops++
+	return s.Storage.List(ctx, m)
+}
+
+// vfC03Request builds the adversary's request: every bundle field symbolic (key types as raw enum values, any
+// lengths incl. 0, any window), the bytes sent either the canonical encoding or another encoding of the same
+// message, and a signature that is by any key of the universe over the sent bytes / over the canonical bytes /
+// over an unrelated message, or raw bytes of any length.
+type vfC03 struct {
+	k, certType, encType int
+	nonce, encPub        []byte
+	nb, na               time.Time
+	sent, sig            []byte
+	sigIsGenuine         bool // sig is a signature by key k over exactly the bytes sent
+}
+
+func vfC03Request(t0 time.Time) (*types.FetchNodeCredentialsRequest, *vfC03) {
+	c := &vfC03{k: vf.Int("certkey", 0, 2), certType: vf.Int("certkeytype", 0, 3), encType: vf.Int("enckeytype", 0, 3),
+		nonce: vf.Bytes("nonce", 64), encPub: vf.Bytes("encpub", 32), nb: vf.TimeFromNow("nb", t0), na: vf.TimeFromNow("na", t0)}
+	info := &types.FetchNodeCredentialsInfo{
+		CertificatePublicKeyPkix: vf.Pkix(c.k), CertificatePublicKeyType: types.KEYTYPE(c.certType),
+		Nonce: c.nonce, EncryptionPublicKeyBytes: c.encPub, EncryptionPublicKeyType: types.KEYTYPE(c.encType),
+		NotBefore: timestamppb.New(c.nb), NotAfter: timestamppb.New(c.na),
+	}
+	canonical, err := proto.Marshal(info)
+	if err != nil {
+		panic(err)
+	}
+	c.sent = canonical
+	if vf.Bool("bundle-sent-in-another-encoding") {
+		c.sent = vf.NonCanonical(canonical)
+	}
+	switch vf.Int("signature-kind", 0, 3) {
+	case 0: // by some key over the bytes sent
+		sk := vf.Int("sigkey", 0, 2)
+		c.sig = vf.SigBy(sk, c.sent)
+		c.sigIsGenuine = sk == c.k
+	case 1: // by some key over the canonical encoding (differs from the bytes sent when those are re-encoded)
+		sk := vf.Int("sigkey", 0, 2)
+		c.sig = vf.SigBy(sk, canonical)
+		c.sigIsGenuine = vf.And(sk == c.k, vf.EqBytes(c.sent, canonical))
+	case 2: // by some key over an unrelated message
+		c.sig = vf.SigBy(vf.Int("sigkey", 0, 2), vf.Bytes("othermsg", 8))
+	default: // raw bytes of any length, including 0 and 64
+		c.sig = vf.Bytes("rawsig", 80)
+	}
+	return &types.FetchNodeCredentialsRequest{Bundle: c.sent, BundleSignature: c.sig}, c
+}
+
+// C03: validation accepts only bundles signed by the key they name over exactly the bytes received, with
+// the required fields and supported key types, inside the skew-widened validity window.
 func VerifC03Validate() {
 	ctx := context.Background()
 	t0 := vf.Now()
-	k := vf.Int("certkey", 0, 2)
-	certType := vf.Int("certkeytype", 0, 3)
-	encType := vf.Int("enckeytype", 0, 3)
-	nonce := vf.Bytes("nonce", 64)
-	encPub := vf.Bytes("encpub", 32)
-	nb := vf.TimeFromNow("nb", t0)
-	na := vf.TimeFromNow("na", t0)
-	info := &types.FetchNodeCredentialsInfo{
-		CertificatePublicKeyPkix: vf.Pkix(k),
-		CertificatePublicKeyType: types.KEYTYPE(certType),
-		Nonce:                    nonce,
-		EncryptionPublicKeyBytes: encPub,
-		EncryptionPublicKeyType:  types.KEYTYPE(encType),
-		NotBefore:                timestamppb.New(nb),
-		NotAfter:                 timestamppb.New(na),
-	}
-	bundle, _ := proto.Marshal(info)
-	signed := bundle
-	if vf.Bool("sig-over-other-message") {
-		signed = vf.Bytes("othermsg", 8)
-	}
-	sigKey := vf.Int("sigkey", -1, 2)
-	sig := vf.SigBy(sigKey, signed)
+	req, c := vfC03Request(t0)
 	nbSkew := vf.Dur("nbskew", -1000000000000000, 1000000000000000)
 	naSkew := vf.Dur("naskew", -1000000000000000, 1000000000000000)
-	st := &vfStore{}
-	_, err := validateFetchRequestCommon(ctx, st, &types.FetchNodeCredentialsRequest{Bundle: bundle, BundleSignature: sig},
-		nodeenrollment.WithNotBeforeClockSkew(nbSkew), nodeenrollment.WithNotAfterClockSkew(naSkew))
+	st := &vfCountingStore{}
+	_, err := validateFetchRequestCommon(ctx, st, req, nodeenrollment.WithNotBeforeClockSkew(nbSkew), nodeenrollment.WithNotAfterClockSkew(naSkew))
+	tEnd := vf.Now()
+	wellFormed := vf.And(vf.And(c.certType == int(types.KEYTYPE_ED25519), c.encType == int(types.KEYTYPE_X25519)), vf.And(len(c.nonce) > 0, len(c.encPub) > 0))
 	if err == nil {
 		vf.Reach("accepted")
 		now := vf.ClockReading(1) // reading 0 is the harness's own, reading 1 is the library's
-		vf.Assert("signed-by-the-key-in-the-bundle", vf.SigOK(k, bundle, sig))
-		vf.Assert("key-types", vf.And(certType == int(types.KEYTYPE_ED25519), encType == int(types.KEYTYPE_X25519)))
-		vf.Assert("required-fields", vf.And(len(nonce) > 0, len(encPub) > 0))
-		vf.Assert("not-before-window", vf.TimeLE(nb.Add(nbSkew), now))
-		vf.Assert("not-after-window", vf.TimeLE(now, na.Add(naSkew)))
+		vf.Assert("signed-by-the-key-in-the-bundle-over-the-bytes-received", c.sigIsGenuine)
+		vf.Assert("key-types", vf.And(c.certType == int(types.KEYTYPE_ED25519), c.encType == int(types.KEYTYPE_X25519)))
+		vf.Assert("required-fields", vf.And(len(c.nonce) > 0, len(c.encPub) > 0))
+		vf.Assert("not-before-window", vf.TimeLE(c.nb.Add(nbSkew), now))
+		vf.Assert("not-after-window", vf.TimeLE(now, c.na.Add(naSkew)))
 	} else {
 		vf.Reach("rejected")
+		// fresh, well-formed, genuinely signed requests are processed (inclusive window, as documented)
+		inWindow := vf.And(vf.TimeLE(c.nb.Add(nbSkew), t0), vf.TimeLE(tEnd, c.na.Add(naSkew)))
+		vf.Assert("genuine-fresh-request-is-accepted", vf.Not(vf.And(vf.And(c.sigIsGenuine, wellFormed), inWindow)))
 	}
-	vf.Assert("no-storage-write", st.writes == 0)
+	vf.Assert("validation-touches-no-storage", st.ops == 0)
+}
+
+// C03 through the two public entry points: a request that fails validation causes no storage operation at all
+// (no authorization decision, no write), whichever entry point receives it.
+func VerifC03EntryPoints() {
+	ctx := context.Background()
+	t0 := vf.Now()
+	req, c := vfC03Request(t0)
+	st := &vfCountingStore{}
+	vfs.StoreRoots(ctx, &st.Storage, t0)
+	vf.Assume(vf.Or(len(c.nonce) == 0, len(c.nonce) == nodeenrollment.NonceSize)) // node-led requests; tokens and wrapped info are C01/C06
+	valid := vf.And(vf.And(c.sigIsGenuine, vf.And(c.certType == int(types.KEYTYPE_ED25519), c.encType == int(types.KEYTYPE_X25519))),
+		vf.And(vf.And(len(c.nonce) > 0, len(c.encPub) > 0), vf.And(vf.TimeLE(c.nb.Add(-5*time.Minute), t0), vf.TimeLE(t0.Add(time.Second), c.na.Add(5*time.Minute)))))
+	invalid := vf.Not(vf.And(vf.And(c.sigIsGenuine, vf.And(c.certType == int(types.KEYTYPE_ED25519), c.encType == int(types.KEYTYPE_X25519))),
+		vf.And(vf.And(len(c.nonce) > 0, len(c.encPub) > 0), vf.And(vf.TimeLE(c.nb.Add(-5*time.Minute), t0.Add(time.Second)), vf.TimeLE(t0, c.na.Add(5*time.Minute))))))
+	if vf.Bool("via-authorize") {
+		_, err := AuthorizeNode(ctx, st, req)
+		vf.Assume(vf.TimeLE(vf.Now(), t0.Add(time.Second)))
+		if err != nil {
+			vf.Reach("authorize-rejected")
+			vf.Assert("rejected-authorize-writes-nothing", st.Count(vfs.KindNode) == 0)
+		} else {
+			vf.Reach("authorize-accepted")
+		}
+		vf.Assert("invalid-request-never-reaches-authorization", vf.Implies(invalid, vf.And(err != nil, st.ops == 0)))
+		vf.Assert("valid-request-is-authorized", vf.Implies(vf.And(valid, len(c.encPub) == 32), err == nil))
+	} else {
+		resp, err := FetchNodeCredentials(ctx, st, req)
+		vf.Assume(vf.TimeLE(vf.Now(), t0.Add(time.Second)))
+		vf.Reach("fetch-done")
+		vf.Assert("invalid-request-never-reaches-a-lookup", vf.Implies(invalid, vf.And(err != nil, st.ops == 0)))
+		if err == nil {
+			vf.Assert("unauthorized-fetch-is-empty", len(resp.EncryptedNodeCredentials) == 0)
+		}
+	}
+}
+
+// C03, node side: a request the library creates is valid from its creation for exactly the documented fetch
+// lifetime, signed by the node's certificate key, and the server side accepts it exactly inside that window.
+func VerifC03NodeSide() {
+	ctx := context.Background()
+	t0 := vf.Now()
+	creds, err := types.NewNodeCredentials(ctx, &vfs.Storage{})
+	vf.Assert("node-credentials-created", err == nil)
+	if err != nil {
+		return
+	}
+	req, err := creds.CreateFetchNodeCredentialsRequest(ctx)
+	vf.Assert("request-created", err == nil)
+	if err != nil {
+		return
+	}
+	made := vf.Now()
+	vf.Assume(vf.TimeLE(made, t0.Add(time.Second)))
+	info := new(types.FetchNodeCredentialsInfo)
+	vf.Assert("bundle-decodes", proto.Unmarshal(req.Bundle, info) == nil)
+	nb, na := info.NotBefore.AsTime(), info.NotAfter.AsTime()
+	vf.Assert("valid-from-creation", vf.And(vf.TimeLE(t0, nb), vf.TimeLE(nb, made)))
+	vf.Assert("valid-for-exactly-the-fetch-lifetime", na.Sub(nb) == nodeenrollment.DefaultFetchCredentialsLifetime)
+	vf.Assert("names-the-nodes-own-key", vf.EqBytes(info.CertificatePublicKeyPkix, creds.CertificatePublicKeyPkix))
+	// the server's view under arbitrary skews (which shift the window: a stand-in for the passage of time)
+	nbSkew := vf.Dur("nbskew", -100000000000000, 100000000000000)
+	naSkew := vf.Dur("naskew", -100000000000000, 100000000000000)
+	_, verr := validateFetchRequestCommon(ctx, &vfs.Storage{}, req, nodeenrollment.WithNotBeforeClockSkew(nbSkew), nodeenrollment.WithNotAfterClockSkew(naSkew))
+	tEnd := vf.Now()
+	vf.Assume(vf.TimeLE(tEnd, t0.Add(2*time.Second)))
+	if verr == nil {
+		vf.Reach("own-request-accepted")
+		vf.Assert("accepted-only-inside-the-window", vf.And(vf.TimeLE(nb.Add(nbSkew), tEnd), vf.TimeLE(made, na.Add(naSkew))))
+	} else {
+		vf.Reach("own-request-rejected")
+		vf.Assert("rejected-only-outside-the-window", vf.Not(vf.And(vf.TimeLE(nb.Add(nbSkew), made), vf.TimeLE(tEnd, na.Add(naSkew)))))
+	}
 }
